@@ -8,8 +8,10 @@ spec -> code : RecStoreMC.tla explores every history of file operations up to a 
 code -> spec : those recorded step-by-step traces, plus seeded random longer call sequences, are validated
                by RecStoreTrace.tla, which re-uses RecStore's actions and evaluates every invariant at
                every step.  TLC names the clause(s) no allowed outcome satisfies.
-mechanism    : SFileFormatMC.tla - the byte-level protocol (fixed-width SIZE line rewritten in place, END
-               scanner, data offset, the C++ row counter) refines the property-level file.
+mechanism    : RecStoreMech.tla - the implementation-shaped model (SIZE line rewritten in place, the row counts cached in
+               SFile / Recfile / the C++ object, the compatibility check): its own invariants are model-checked and a
+               transition tour of its behaviours is judged by RecStoreTrace.tla like traces of the real code (refinement by
+               trace inclusion); each known deviation of the code is a constant whose FALSE variant must be rejected.
 Python never judges: it maps abstract events to calls, records, and builds signatures from what TLC reports.
 """
 import json
